@@ -39,6 +39,7 @@ pub struct Core {
     last_voted_round: Round,
     last_committed_round: Round,
     high_qc: QC,
+    last_tc: Option<TC>,
     timer: Timer,
     aggregator: Aggregator,
     network: SimpleSender,
@@ -77,6 +78,7 @@ impl Core {
                 last_voted_round: 0,
                 last_committed_round: 0,
                 high_qc: QC::genesis(),
+                last_tc: None,
                 timer: Timer::new(timeout_delay),
                 aggregator: Aggregator::new(committee),
                 network: SimpleSender::new(),
@@ -232,6 +234,18 @@ impl Core {
     async fn handle_timeout(&mut self, timeout: &Timeout) -> ConsensusResult<()> {
         debug!("Processing {:?}", timeout);
         if timeout.round < self.round {
+            // The sender is stuck in a round we left through a TC it may never have received
+            // (TCs are broadcast once, best effort): give it the TC so that it can catch up.
+            if let Some(tc) = self.last_tc.clone() {
+                if tc.round >= timeout.round {
+                    timeout.verify(&self.committee)?;
+                    if let Some(address) = self.committee.address(&timeout.author) {
+                        let message = bincode::serialize(&ConsensusMessage::TC(tc))
+                            .expect("Failed to serialize timeout certificate");
+                        self.network.send(address, Bytes::from(message)).await;
+                    }
+                }
+            }
             return Ok(());
         }
 
@@ -244,6 +258,7 @@ impl Core {
         // Add the new vote to our aggregator and see if we have a quorum.
         if let Some(tc) = self.aggregator.add_timeout(timeout.clone())? {
             debug!("Assembled {:?}", tc);
+            self.last_tc = Some(tc.clone());
 
             // Try to advance the round.
             self.advance_round(tc.round).await;
@@ -388,6 +403,9 @@ impl Core {
 
         // Process the TC (if any). This may also allow us to advance round.
         if let Some(ref tc) = block.tc {
+            if tc.round >= self.round {
+                self.last_tc = Some(tc.clone());
+            }
             self.advance_round(tc.round).await;
         }
 
@@ -407,6 +425,7 @@ impl Core {
         if tc.round < self.round {
             return Ok(());
         }
+        self.last_tc = Some(tc.clone());
         self.advance_round(tc.round).await;
         if self.name == self.leader_elector.get_leader(self.round) {
             self.generate_proposal(Some(tc)).await;
